@@ -776,7 +776,8 @@ def fc_calculator_checks(run):
         lines.append("fccalc %s %d %d" % (tok, sym, load))
         want.append((fc, sym, load, got))
         if argv == [] and got != ("symfc" if load else "traditional"):
-            run.violation("phonopy_script._get_fc_calculator_params", "default-fc-calculator", "default calculator of %s is %r" % (variant, got), dict(variant=variant, argv=argv))
+            # symfc is not installed, so the default cannot be observed through outputs: a statement about the modelled rule only
+            run.broke("correspondence", "fc-calculator rule: default calculator of %s is %r" % (variant, got), dict(variant=variant, argv=argv))
     out = common.lean_run_driver("C18", lines)
     for (fc, sym, load, got), ans in zip(want, out):
         run.count("fc-calculator default rule", section="correspondence")
@@ -887,8 +888,9 @@ def calculator_flows(run, tmp, rng, thorough):
             # unit invariance: the eV/Angstrom description of the same crystal
             fl.nchecks += 1
             if np.abs(f_lib - f_ref).max() > 1e-6 * max(1.0, np.abs(f_ref).max()):
-                fl.bad("calculator-units-not-invariant", "library frequencies in %s units differ from the eV/Angstrom description by %.3g" % (
-                    calc, float(np.abs(f_lib - f_ref).max())), argv=argv)
+                # a statement about the library alone (C17's unit invariance), not about the front-end: the reference is unusable
+                run.broke("harness", "calculator workflow: library frequencies in %s units differ from the eV/Angstrom description by %.3g (C17's property)" % (
+                    calc, float(np.abs(f_lib - f_ref).max())), dict(argv=argv))
             # the summary file records the calculator's NAC factor
             py = _yaml("phonopy.yaml")
             fac = (py.get("nac") or {}).get("unit_conversion_factor", (py.get("phonopy") or {}).get("nac_unit_conversion_factor"))
@@ -1099,7 +1101,11 @@ def boundary_flows(run, tmp, flow, tb, rng, thorough):
         return ph
 
     def disp_yaml():
-        ds = phonopy.load("phonopy_disp.yaml", produce_fc=False, log_level=0).dataset
+        from phonopy.interface.phonopy_yaml import PhonopyYaml
+
+        py = PhonopyYaml()  # (phonopy.load would replace the dataset by the FORCE_SETS of the directory)
+        py.read("phonopy_disp.yaml")
+        ds = py.dataset
         if "displacements" in ds:
             return np.asarray(ds["displacements"])
         return np.array([[x["number"]] + list(x["displacement"]) for x in ds["first_atoms"]], dtype=float)
@@ -1148,7 +1154,9 @@ def boundary_flows(run, tmp, flow, tb, rng, thorough):
         ph = lib_obj(v)
         ph.init_mesh([2, 2, 2], with_eigenvectors=True, is_mesh_symmetry=False, use_iter_mesh=True)
         ph.run_thermal_displacement_matrices(temperatures=[0.0])
-        return np.asarray(ph.get_thermal_displacement_matrices_dict()["thermal_displacement_matrices"])
+        m = np.asarray(ph.get_thermal_displacement_matrices_dict()["thermal_displacement_matrices"])
+        # the yaml file lists xx yy zz yz xz xy
+        return np.stack([m[..., 0, 0], m[..., 1, 1], m[..., 2, 2], m[..., 1, 2], m[..., 0, 2], m[..., 0, 1]], axis=-1).real
 
     def tdm_file():
         y = _yaml("thermal_displacement_matrices.yaml")
@@ -1201,7 +1209,7 @@ def boundary_flows(run, tmp, flow, tb, rng, thorough):
         "dm_decimals": (["--qpoints", "0.1", "0.2", "0.3"], ["QPOINTS = 0.1 0.2 0.3"], ["--dm-decimals", "0"], "DM_DECIMALS = 0", lambda o: qfreq_file(),
                         lambda v: q_lib(v, dynamical_matrix_decimals=0), 2e-10, ("phonopy",)),
         "band_points": (["--band", "0", "0", "0", "1/2", "0", "0"], ["BAND = 0 0 0 1/2 0 0"], ["--band-points", "2"], "BAND_POINTS = 2", lambda o: qfreq_file("band.yaml"), lambda v: band_lib(v, 2), 2e-10, ("phonopy", "load")),
-        "tdispmat_cif": (["--mesh", "2", "2", "2"], ["MESH = 2 2 2"], ["--tdm-cif", "0"], "TDISPMAT_CIF = 0", lambda o: tdm_file(), tdm_lib, 2e-7, ("phonopy", "load")),
+        "tdispmat_cif": (["--mesh", "2", "2", "2"], ["MESH = 2 2 2"], ["--tdm-cif", "0"], "TDISPMAT_CIF = 0", lambda o: tdm_file(), tdm_lib, 6e-6, ("phonopy", "load")),
         "mesh_numbers": ([], [], ["--mesh", "1", "1", "1"], "MESH = 1 1 1", lambda o: qfreq_file("mesh.yaml"), mesh1_lib, 2e-10, ("phonopy", "load")),
         "moment_order": (["--mesh", "2", "2", "2", "--moment"], ["MESH = 2 2 2", "MOMENT = .TRUE."], ["--moment-order", "0"], "MOMENT_ORDER = 0", moment_out, moment_lib, 2e-5, ("phonopy", "load")),
         "displacement_distance": (["-d"], ["CREATE_DISPLACEMENTS = .TRUE."], ["--amplitude", "0"], "DISPLACEMENT_DISTANCE = 0", lambda o: disp_yaml(), disp_amp_lib, 1e-14, ("phonopy",)),
@@ -1217,10 +1225,12 @@ def boundary_flows(run, tmp, flow, tb, rng, thorough):
         else:
             report[tag] = "NOT COVERED"
             run.broke("coverage", "numeric setting %s has neither a zero-valued workflow case nor a recorded reason (harness/props/c18_flow.py CASES / NO_ZERO_CASE)" % tag)
+    report["q_direction"] = "no case: the zero vector has no direction (the library normalises it)"
+    report["fc_symmetry off / mesh / dim of the stored yaml"] = "covered by override_flows and the main workflows"
     run.cov["oracle"]["numeric settings at 0 through the workflows"] = report
 
     names = list(CASES)
-    if not thorough:  # quick: the displacement temperature always, half of the others
+    if not thorough and not os.environ.get("C18_ALL_BOUNDARY"):  # quick: the displacement temperature always, half of the others
         rest = [n for n in names if not n.startswith("random_displacement_temperature")]
         rng.shuffle(rest)
         names = ["random_displacement_temperature"] + rest[: len(rest) // 2 + 1]
@@ -1228,13 +1238,20 @@ def boundary_flows(run, tmp, flow, tb, rng, thorough):
         mode_argv, mode_conf, opt, tagline, extract, lib, tol, variants = CASES[name]
         for variant in variants:
             want, lib_err = None, None
-            os.chdir(src)
+            # the library call runs in a directory that holds the same inputs as the command's (and nothing else:
+            # phonopy.load picks up FORCE_CONSTANTS / BORN of the current directory)
+            dl = os.path.join(fl.dir, "lib")
+            shutil.rmtree(dl, ignore_errors=True)
+            os.makedirs(dl)
+            for f in ("POSCAR", "FORCE_SETS", "phonopy_params.yaml"):
+                shutil.copy(os.path.join(src, f), os.path.join(dl, f))
+            os.chdir(dl)
             try:
                 with contextlib.redirect_stdout(io.StringIO()):
                     want = np.asarray(lib(variant), dtype=float)
             except Exception as e:  # the library rejects the value: the command must not silently do something else
                 lib_err = "%s: %s" % (type(e).__name__, e)
-            routes = ("opt", "tag") if thorough or name.startswith("random_displacement_temperature") else (rng.choice(["opt", "tag"]),)
+            routes = ("opt", "tag") if thorough or os.environ.get("C18_ALL_BOUNDARY") or name.startswith("random_displacement_temperature") else (rng.choice(["opt", "tag"]),)
             for route in routes:
                 d = os.path.join(fl.dir, "case")
                 shutil.rmtree(d, ignore_errors=True)
